@@ -215,6 +215,38 @@ def tlc(module, cfg, specdir, env=None, workers="auto", timeout=1200, extra=None
     return TlcResult(rc, out, wall)
 
 
+def apalache(module, specdir, args, timeout=900, tag=None):
+    """run apalache-mc check on specdir/module.tla; returns ("ok" | "violation" | "tool_error", output). Output directories
+    live under .build/ (never inside spec/)."""
+    out_dir = os.path.join(BUILD, "apalache", "%s_%d" % (tag or module, os.getpid()))
+    shutil.rmtree(out_dir, ignore_errors=True)
+    os.makedirs(out_dir, exist_ok=True)
+    cmd = ["apalache-mc", "check", "--out-dir=" + out_dir, "--run-dir=" + os.path.join(out_dir, "run")] + list(args) + [module + ".tla"]
+    rc, out, _ = run(cmd, cwd=specdir, timeout=timeout, check=False)
+    shutil.rmtree(out_dir, ignore_errors=True)
+    if "The outcome is: NoError" in out and rc == 0:
+        return "ok", out
+    if "The outcome is: Error" in out and rc == 12:
+        return "violation", out
+    return "tool_error", out
+
+
+def inductive(rep, module, specdir, cinit="CInit", init="Init", indinit="IndInit", indinv="IndInv", safety="Safety", what=""):
+    """Apalache: Init => IndInv, IndInv /\\ Next => IndInv', IndInv => Safety (unbounded). A violation is a violation of the design
+    model; a tool error is only recorded (the TLC runs decide the bounded model either way)."""
+    steps = [("init", ["--cinit=" + cinit, "--init=" + init, "--inv=" + indinv, "--length=0"]),
+             ("step", ["--cinit=" + cinit, "--init=" + indinit, "--inv=" + indinv, "--length=1"]),
+             ("safety", ["--cinit=" + cinit, "--init=" + indinit, "--inv=" + safety, "--length=0"])]
+    res = {}
+    for name, args in steps:
+        st, out = apalache(module, specdir, args, tag=module + "_" + name)
+        res[name] = st
+        if st == "violation":
+            rep.violation("Apalache: %s of %s.tla fails (%s)" % (name, module, what), payload=out[-4000:])
+    rep.coverage.setdefault("apalache_inductive", []).append({"module": module, "what": what, "result": res})
+    return res
+
+
 def negative_control(rep, module, cfg, specdir, what):
     """negative control OF THE MODEL (never of the implementation): a deliberately broken configuration must violate an invariant,
     otherwise the invariants would be vacuous. One worker (the first reported invariant must not depend on thread timing), one retry,
